@@ -544,7 +544,7 @@ def generate(ctx: Ctx) -> List[Case]:
     cases: List[Case] = []
     for i, rec in enumerate(CORPUS):
         cases.append(run_recipe(ctx, rec, f"corpus{i}"))
-    n_trees = 1500 if ctx.thorough else 150
+    n_trees = 5000 if ctx.thorough else 250
     recipes: List[Dict[str, Any]] = []
     for ti in range(n_trees):
         tree = rand_tree(ctx.rng)
